@@ -14,7 +14,7 @@ def build():
 def run(tier, deadline):
     t0 = time.time(); build()
     env = dict(os.environ, CAT_LIB=vbuild.build("prod"))
-    M = 8 if tier == "quick" else 10
+    M = 8 if tier == "quick" else 12
     jobs = [["all", str(M), str(i), "16"] for i in range(16)] + [["moves", "200" if tier == "quick" else "400", str(i), "16"] for i in range(16)]
     viol = {}; internal = []; tot = {"layouts": 0, "zone_disjoint": 0, "zone_must_report": 0, "zone_either": 0, "dest_unterminated": 0}; timed_out = []
     def one(j):
